@@ -1,8 +1,9 @@
 import ScriggoV.Lemmas.Lexer.Basic
 /-! # A show statement `{{ … }}` leaves the template-context fields of the lexer alone
 
-`SameCtx a b`: the six fields of the lexer state that decide template contexts (`ctx`,
-`contexts`, `tagName`, `tagAttr`, `tagIndex`, `tagCtx`) are the same in `a` and `b`.
+`SameCtx a b`: the seven fields of the lexer state that decide template contexts (`ctx`,
+`contexts`, `tagName`, `tagAttr`, `tagIndex`, `tagCtx`, and the base context `lbase` = `l.base`)
+are the same in `a` and `b`.
 
 This file has the small Hoare-style toolkit (`Post x P`: every successful result of `x`
 satisfies `P`) and the preservation lemmas of the primitives and of the literal lexers
@@ -15,12 +16,12 @@ open ScriggoV ScriggoV.Gen.LexTables
 /-- the fields that decide template contexts are unchanged -/
 def SameCtx (a b : St) : Prop :=
   b.ctx = a.ctx ∧ b.contexts = a.contexts ∧ b.tagName = a.tagName ∧ b.tagAttr = a.tagAttr ∧
-  b.tagIndex = a.tagIndex ∧ b.tagCtx = a.tagCtx
+  b.tagIndex = a.tagIndex ∧ b.tagCtx = a.tagCtx ∧ b.lbase = a.lbase
 
-abbrev CtxKey := Nat × List Nat × Bytes × Bytes × Nat × Nat
+abbrev CtxKey := Nat × List Nat × Bytes × Bytes × Nat × Nat × Nat
 
-/-- the six fields of `SameCtx` as one value -/
-def ctxOf (s : St) : CtxKey := (s.ctx, s.contexts, s.tagName, s.tagAttr, s.tagIndex, s.tagCtx)
+/-- the seven fields of `SameCtx` as one value -/
+def ctxOf (s : St) : CtxKey := (s.ctx, s.contexts, s.tagName, s.tagAttr, s.tagIndex, s.tagCtx, s.lbase)
 
 theorem sameCtx_iff {a b : St} : SameCtx a b ↔ ctxOf b = ctxOf a := by
   unfold SameCtx ctxOf
